@@ -277,6 +277,7 @@ Inductive action :=
 | AHeartbeat (n : node)
 | ALapse (n : node)
 | ALapseFail (n : node)         (* lapse; the SetNode call of the handler it triggers fails (injected) *)
+| ALapseHb (n : node)           (* lapse; the heartbeat is back before the handler has made its first call *)
 | ACreate (n : node)
 | AReport (w : wid) (r h : bool)
 | AStart                        (* a new selfmon starts; runs freely *)
@@ -341,6 +342,7 @@ Definition act_events (s : st) (a : action) : list event :=
   | AAddNode n => [EAddNode n; EHeartbeat n]
   | AHeartbeat n => [EHeartbeat n]
   | ALapse n | ALapseFail n => [ELapse n]
+  | ALapseHb n => [ELapse n; EHeartbeat n]
   | ACreate n => [ECreate n]
   | AReport w r h => [EReport w r h]
   | AStart | AStartHeld => [ESpawn; EStart (length (ws s))]
@@ -409,6 +411,7 @@ Definition ok_upd (o : okst) (sl : slot) : okst :=
   let alive' := match a with
                 | AAddNode n | AHeartbeat n => if memn n nodes' && negb (memn n (o_alive o)) then n :: o_alive o else o_alive o
                 | ALapse n | ALapseFail n => remn n (o_alive o)
+                | ALapseHb n => if memn n nodes' then n :: remn n (o_alive o) else remn n (o_alive o)
                 | _ => o_alive o end in
   let wnode' := match a with
                 | ACreate n => if length (o_wnode o) <? length (seen sl) then o_wnode o ++ [n] else o_wnode o
@@ -445,14 +448,17 @@ Definition ok_takes (o : okst) (sl : slot) : bool :=
   | _, _ => false
   end.
 Definition ok_absent (o' : okst) : list node := filter (fun n => negb (memn n (o_alive o'))) (o_nodes o').
+(* the actions in which the status of a node disappears (and its handler is not made to fail) *)
+Definition lapse_of (a : action) : option node :=
+  match a with ALapse n | ALapseHb n => Some n | _ => None end.
 Definition ok_check (o : okst) (sl : slot) : bool :=
   let o' := ok_upd o sl in
-  match act sl with
-  | ALapse n =>
-      (* the status disappears while a watcher is active *)
+  match lapse_of (act sl) with
+  | Some n =>
+      (* the status disappears while a watcher is active -- whether or not it is back soon *)
       if lock_running (o_held o') (o_active o) && memn n (o_alive o)
       then seen_down (o_wnode o') (seen sl) n else true
-  | _ =>
+  | None =>
       (* a watcher becomes active while the status is absent *)
       if ok_takes o sl then forallb (seen_down (o_wnode o') (seen sl)) (ok_absent o') else true
   end.
